@@ -329,7 +329,7 @@ func c10Main() {
 									for act := 0; act < 2; act++ {
 										c := c10Case{Fn: "DistributeRewardsRandN", Value: v, Charge: ch, Balances: vec, MinStake: f.minStake, Killed: f.killed,
 											RandN: N, Seed: int64(seed), Demeter: act == 1,
-											rank: []int64{int64(n), int64(vali), int64(vi), int64(ci), int64(fi), int64(N), int64(seed), int64(act)}}
+											rank: []int64{int64(n), int64(vali), int64(vi), int64(ci), int64(fi), int64((N + 98) % 99), int64(seed), int64(act)}} // N = 0 ranks last
 										local["RN|"+fmt.Sprint(n, N)+"|"+c10Judge(&c, c10Run(&c, ctxOn, ctxOff), col)] = struct{}{}
 										calls++
 									}
